@@ -1,1 +1,197 @@
-(* placeholder *)
+(* C16 -- Built-in jobs report each execution faithfully and do not leak resources.
+   This file contains only the property theorems; each is closed by `exact` of a lemma proved in
+   JobsProofs.v and followed by Print Assumptions.  Model: JobsModel.v.  The branch tests, status
+   constants, HTTP limits and operators, the position of the outcome computation, of the field
+   assignments and of the callback relative to mtx.Lock/Unlock, and the body close are read from
+   the Go source by genparams (Gen/Params.v).  Runtime facts (processes, sockets, descriptors,
+   goroutines) are observed by the harness, not proved. *)
+From Coq Require Import ZArith List Bool Arith.
+Require Import QzJobs.Gen.Params QzJobs.JobsModel QzJobs.JobsProofs.
+Import ListNotations.
+Open Scope nat_scope.
+
+Theorem C16_status_constants_distinct :
+  go_StatusNA <> go_StatusOK /\ go_StatusNA <> go_StatusFailure /\ go_StatusOK <> go_StatusFailure.
+Proof. exact status_constants_distinct. Qed.
+Print Assumptions C16_status_constants_distinct.
+
+(* facts about the source text that the models assume: fields come from this run's buffers and
+   process state, the command and the request are bound to ctx, the status is computed after Do,
+   callbacks follow the unlock, Execute returns the error of the call it made *)
+Theorem C16_source_shape :
+  sh_fields_from_this_run = true /\ sh_uses_ctx = true /\ sh_callback_after_unlock = true /\
+  cu_rebinds_ctx = true /\ cu_status_after_do = true /\ cu_callback_after_unlock = true /\
+  cu_nil_guard = true /\ fn_returns_call_err = true /\ sh_returns_run_err = true /\ cu_returns_do_err = true.
+Proof. exact source_shape. Qed.
+Print Assumptions C16_source_shape.
+
+(* ---- FunctionJob: OK iff err = nil; result zeroed on error; Execute returns err ---- *)
+Theorem C16_function_commit : forall (R E : Type) (zero res : R) (err : option E),
+  fn_commit R E zero (res, err) =
+  match err with
+  | None => (go_StatusOK, res, None)
+  | Some e => (go_StatusFailure, zero, Some e)
+  end.
+Proof. exact fn_commit_spec. Qed.
+Print Assumptions C16_function_commit.
+
+Theorem C16_function_status_ok_iff : forall (R E : Type) (zero res : R) (err : option E),
+  fst (fst (fn_commit R E zero (res, err))) = go_StatusOK <-> err = None.
+Proof. exact fn_status_ok_iff. Qed.
+Print Assumptions C16_function_status_ok_iff.
+
+Theorem C16_function_returns_err : forall (R E : Type) (o : fn_outcome R E), fn_return R E o = snd o.
+Proof. exact fn_return_spec. Qed.
+Print Assumptions C16_function_returns_err.
+
+(* ---- ShellJob: OK iff Run's error is nil iff the command exited 0, for ALL exit codes ---- *)
+Theorem C16_shell_status_ok_iff : forall r, sh_status r = go_StatusOK <-> r = Exited 0%Z.
+Proof. exact sh_status_ok_iff. Qed.
+Print Assumptions C16_shell_status_ok_iff.
+
+Theorem C16_shell_status_exit_codes : forall c : Z,
+  (sh_status (Exited c) = go_StatusOK <-> c = 0%Z) /\
+  (sh_status (Exited c) = go_StatusFailure <-> c <> 0%Z).
+Proof. exact sh_status_exit_codes. Qed.
+Print Assumptions C16_shell_status_exit_codes.
+
+Theorem C16_shell_failure_iff_err : forall r, sh_status r = go_StatusFailure <-> run_err r <> None.
+Proof. exact sh_failure_iff_err. Qed.
+Print Assumptions C16_shell_failure_iff_err.
+
+Theorem C16_shell_commit : forall (S : Type) (r : run_result) (out err : S),
+  sh_commit S (r, out, err) = (out, err, exit_code r, sh_status r) /\ sh_return S (r, out, err) = run_err r.
+Proof. exact sh_commit_spec. Qed.
+Print Assumptions C16_shell_commit.
+
+(* ---- CurlJob: OK iff a response exists and 200 <= code < 400; transport error => Failure ---- *)
+Theorem C16_http_code_ok_iff : forall c : Z, http_code_ok c = true <-> (200 <= c < 400)%Z.
+Proof. exact http_code_ok_iff. Qed.
+Print Assumptions C16_http_code_ok_iff.
+
+Theorem C16_http_status_ok_iff : forall resp : option (Z * bool),
+  cu_status resp = go_StatusOK <-> exists c b, resp = Some (c, b) /\ (200 <= c < 400)%Z.
+Proof. exact cu_status_ok_iff. Qed.
+Print Assumptions C16_http_status_ok_iff.
+
+Theorem C16_http_status_total : forall resp, cu_status resp = go_StatusOK \/ cu_status resp = go_StatusFailure.
+Proof. exact cu_status_total. Qed.
+Print Assumptions C16_http_status_total.
+
+Theorem C16_http_transport_error_fails : cu_status None = go_StatusFailure.
+Proof. exact cu_transport_error_fails. Qed.
+Print Assumptions C16_http_transport_error_fails.
+
+Theorem C16_curl_commit : forall (E : Type) (o : cu_outcome E),
+  cu_commit E o = (fst o, cu_status (fst o)) /\ cu_return E o = snd o.
+Proof. exact cu_commit_spec. Qed.
+Print Assumptions C16_curl_commit.
+
+(* ---- concurrent executions of one job object (any number of threads, any label sequence) ----
+   Whenever the mutex is free -- i.e. whenever a getter can look -- the visible tuple is exactly
+   the committed tuple of the execution whose commit completed last (the newest commit event of
+   the history), never a mixture. *)
+Theorem C16_function_last_outcome_atomic : forall (R E : Type) (zero : R) tr (s : jstate (fn_outcome R E)),
+  jrun no_body fn_cfg jinit tr = Some s -> j_lock s = None ->
+  fn_visible zero s = match j_last s with Some (_, o) => fn_commit R E zero o | None => fn_initial R E zero end /\
+  last_commit (j_log s) = j_last s.
+Proof. exact fn_last_outcome_atomic. Qed.
+Print Assumptions C16_function_last_outcome_atomic.
+
+Theorem C16_shell_last_outcome_atomic : forall (S : Type) (empty : S) cb tr (s : jstate (sh_outcome S)),
+  jrun no_body (sh_cfg cb) jinit tr = Some s -> j_lock s = None ->
+  sh_visible empty s = match j_last s with Some (_, o) => sh_commit S o | None => (empty, empty, 0%Z, go_StatusNA) end /\
+  last_commit (j_log s) = j_last s.
+Proof. exact sh_last_outcome_atomic. Qed.
+Print Assumptions C16_shell_last_outcome_atomic.
+
+Theorem C16_curl_last_outcome_atomic : forall (E : Type) cb tr (s : jstate (cu_outcome E)),
+  jrun (cu_body E) (cu_cfg cb) jinit tr = Some s -> j_lock s = None ->
+  cu_visible s = match j_last s with Some (_, o) => cu_commit E o | None => (None, go_StatusNA) end /\
+  last_commit (j_log s) = j_last s.
+Proof. exact cu_last_outcome_atomic. Qed.
+Print Assumptions C16_curl_last_outcome_atomic.
+
+(* ---- callbacks: for every configuration c, in every history and per thread, callbacks never run
+   ahead of the thread's own commits; back outside Execute the thread made jc_ncb c callbacks per
+   execution and committed / returned once per execution.  jc_ncb is 1 for ShellJob / CurlJob
+   with a callback and 0 otherwise (C16_callback_counts). *)
+Theorem C16_callback_once : forall (O : Type) (body : O -> nat) (c : jcfg) tr (s : jstate O) t,
+  jrun body c jinit tr = Some s ->
+  jcount (is_callback t) (j_log s) <= jc_ncb c * jcount (is_commit t) (j_log s) /\
+  (j_pc s t = JIdle ->
+     jcount (is_callback t) (j_log s) = jc_ncb c * jcount (is_jreturn t) (j_log s) /\
+     jcount (is_commit t) (j_log s) = jcount (is_jreturn t) (j_log s)).
+Proof. exact callback_once. Qed.
+Print Assumptions C16_callback_once.
+
+Theorem C16_callback_counts :
+  jc_ncb fn_cfg = 0 /\ jc_ncb (sh_cfg false) = 0 /\ jc_ncb (cu_cfg false) = 0 /\
+  jc_ncb (sh_cfg true) = 1 /\ jc_ncb (cu_cfg true) = 1.
+Proof. exact callback_counts. Qed.
+Print Assumptions C16_callback_counts.
+
+Theorem C16_callback_only_after_unlock : forall (O : Type) (body : O -> nat) (c : jcfg) (s : jstate O) t s',
+  jstep body c s (JCallback t) = Some s' ->
+  exists o n, j_pc s t = JUnlocked o n /\ n < jc_ncb c /\ j_pc s' t = JUnlocked o (S n).
+Proof. exact callback_only_after_unlock. Qed.
+Print Assumptions C16_callback_only_after_unlock.
+
+(* Execute returns with the outcome this very execution produced (its error is fn/sh/cu_return of it) *)
+Theorem C16_return_carries_own_outcome : forall (O : Type) (body : O -> nat) (c : jcfg) (s : jstate O) t s',
+  jstep body c s (JReturn t) = Some s' ->
+  exists o, j_pc s t = JUnlocked o (jc_ncb c) /\ j_log s' = JEvReturn t o :: j_log s /\ j_pc s' t = JIdle.
+Proof. exact return_carries_own_outcome. Qed.
+Print Assumptions C16_return_carries_own_outcome.
+
+Theorem C16_where_outcome_is_computed :
+  jc_in_lock fn_cfg = false /\ (forall cb, jc_in_lock (sh_cfg cb) = false) /\ (forall cb, jc_in_lock (cu_cfg cb) = true).
+Proof. exact where_outcome_is_computed. Qed.
+Print Assumptions C16_where_outcome_is_computed.
+
+(* ---- CurlJob response bodies: at most one unclosed body in EVERY reachable state, sequential or
+   concurrent (the mutex spans close-previous, Do and the assignment, so executions serialise);
+   with the mutex free the only open body is that of the response currently held *)
+Theorem C16_curl_open_bodies_bounded : forall (E : Type) cb tr (s : jstate (cu_outcome E)),
+  jrun (cu_body E) (cu_cfg cb) jinit tr = Some s -> j_open s <= 1.
+Proof. exact cu_open_bodies_bounded. Qed.
+Print Assumptions C16_curl_open_bodies_bounded.
+
+Theorem C16_curl_open_bodies_quiescent : forall (E : Type) cb tr (s : jstate (cu_outcome E)),
+  jrun (cu_body E) (cu_cfg cb) jinit tr = Some s -> j_lock s = None ->
+  j_open s = body_of (cu_body E) (j_last s).
+Proof. exact cu_open_bodies_quiescent. Qed.
+Print Assumptions C16_curl_open_bodies_quiescent.
+
+Theorem C16_curl_do_serialised : forall (E : Type) cb tr (s : jstate (cu_outcome E)) t u,
+  jrun (cu_body E) (cu_cfg cb) jinit tr = Some s ->
+  holds_lock (j_pc s t) = true -> holds_lock (j_pc s u) = true -> t = u.
+Proof. exact cu_do_serialised. Qed.
+Print Assumptions C16_curl_do_serialised.
+
+(* the finite domain swept by the harness, decided in Coq: every HTTP code 100..599 *)
+Theorem C16_http_codes_100_599 :
+  forallb (fun n => let c := Z.of_nat (100 + n) in
+                    Z.eqb (cu_status (Some (c, true))) (if ((200 <=? c) && (c <? 400))%Z then go_StatusOK else go_StatusFailure))
+          (seq 0 500) = true.
+Proof. exact http_codes_100_599. Qed.
+Print Assumptions C16_http_codes_100_599.
+
+(* ---- sensitivity: what the theorems exclude does happen in the broken variants ---- *)
+Theorem C16_split_commit_mixes :
+  exists s, jrun no_body fn_cfg_split_commit jinit
+              [JCompute 0 (7, None); JCompute 1 (9, Some tt); JLock 0; JWrite 0; JSplit 0;
+               JLock 1; JWrite 1; JWrite 1; JWrite 1; JUnlock 1;
+               JLock 0; JWrite 0; JWrite 0; JUnlock 0] = Some s /\
+            j_lock s = None /\ j_last s = Some (0, (7, @None unit)) /\
+            fn_visible 0 s = (go_StatusFailure, 7, None) /\
+            fn_commit nat unit 0 (7, None) = (go_StatusOK, 7, None).
+Proof. exact split_commit_mixes. Qed.
+Print Assumptions C16_split_commit_mixes.
+
+Theorem C16_no_close_leaks :
+  exists s, jrun (cu_body unit) cu_cfg_no_close jinit
+              (exec_nocb 0 o200 ++ exec_nocb 0 o200 ++ exec_nocb 0 o500 ++ exec_nocb 0 o200 ++ exec_nocb 0 o200) = Some s /\
+            j_lock s = None /\ j_open s = 5.
+Proof. exact no_close_leaks. Qed.
+Print Assumptions C16_no_close_leaks.
